@@ -1,5 +1,6 @@
 """C01 - the up-to-date decision follows make semantics on files, timestamps and spec."""
 import ast
+import types
 
 from ..index import dotted, walk_no_nested, loc, ancestors, FUNC_TYPES
 from ..paths import RAISE, RETURN, Explorer, Semantics, State, fmt_trace
@@ -196,6 +197,8 @@ def rule_flatten(ctx, r):
     witnesses = [
         ("a", ["a"]), (["a", "b"], ["a", "b"]), ({"x": "a", "y": ["b", ["c"]]}, ["a", "b", "c"]), ([[]], []), ({"A": []}, []), ([], []), ({}, []),
         ([["a"], {"k": ("b", "c")}], ["a", "b", "c"]), ([pl, "z"], [pl, "z"]), (("t",), ["t"]), ({"k1": "v1", "k2": {"k3": "v3"}}, ["v1", "v3"]),
+        # a mapping that is not a dict (read-only view, user-defined Mapping): still its values, never its keys
+        (types.MappingProxyType({"name": "f1"}), ["f1"]), ([types.MappingProxyType({"k": ["f2", "f3"]})], ["f2", "f3"]),
     ]
     bad = []
     for shape, want in witnesses:
@@ -224,8 +227,15 @@ def rule_flatten(ctx, r):
             got = interp.call(m, (), {}, self_obj=obj)
         except (Raised, Unsupported) as exc:
             got = f"<{exc}>"
-        norm = lambda v: sorted(x.replace("⟦norm:", "⟦abs:") for x in v) if isinstance(v, (list, set)) else v
-        r.check(norm(got) == norm(want) and type(got) is type(want), c2, "= normalised flattening of its own attribute against the target's working directory",
+        from .evalhelpers import anchored_norm
+        rels = {"flattened_inputs": ["i1", None], "flattened_outputs": ["o1", "o2"], "protected": ["p1"]}[meth]
+
+        def same(g, w):
+            if not isinstance(g, (list, set)) or type(g) is not type(w) or len(g) != len(w):
+                return False
+            gl = list(g) if isinstance(g, list) else sorted(g)
+            return all((x == "/abs/i2") if rel is None else anchored_norm(x, WD, rel) for x, rel in zip(gl, rels))
+        r.check(same(got, want), c2, "= normalised flattening of its own attribute against the target's working directory",
                 f"Target.{meth} yields {str(got)[:90]} for inputs={{'a': ['i1', '/abs/i2']}}, outputs=['o1', ['o2']], protect={{'p1'}}: it must be the normalised "
                 "flattening of its own attribute", m.where)
 
@@ -296,6 +306,8 @@ def rule_one_snapshot(ctx, r):
                 to_sched = True
         r.check(to_graph and to_sched, c2, "one filesystem snapshot shared by graph construction and the scheduler",
                 "graph construction and the staleness decision do not share one filesystem snapshot", f.where)
+    from .shared import rule_per_instance_state
+    rule_per_instance_state(ctx, r, [f"{CORE}:CachedFilesystem"], "two decisions in one process (status, then run) would share one stat snapshot across what should be independent snapshots")
 
 
 class HasChangedSem(Semantics):
